@@ -463,8 +463,9 @@ INT_TEXTS = ["0", "1", "-1", "7", "42", "-300", "65536", "2147483647", "-2147483
 UINT_TEXTS = [str(2 ** 63), str(2 ** 63 + 1), str(2 ** 64 - 1), str(2 ** 64 - 2), "0", "5", str(2 ** 53 + 1), "+" + str(2 ** 63 + 3)]
 # spot ids: small, around 2^53 (where a pass through float64 rounds), up to the uint64 range the geff id array holds
 BIG_IDS = [0, 1, 5, 77, 2 ** 20, 2 ** 31 - 1, 2 ** 40, 123456789, 2 ** 53 - 1, 2 ** 53, 2 ** 53 + 1, 2 ** 53 + 2, 2 ** 53 + 3,
-           2 ** 62, 2 ** 62 + 1, 2 ** 63 - 2, 2 ** 63 - 1, 2 ** 63, 2 ** 63 + 1, 2 ** 64 - 2, 2 ** 64 - 1, 9007199254740995,
+           2 ** 62, 2 ** 62 + 1, 2 ** 63 - 2, 2 ** 63 - 1, 2 ** 63, 2 ** 63 + 1, 2 ** 64 - 2, 2 ** 64 - 1, 9007199254740997,
            1152921504606846977]
+assert len(set(BIG_IDS)) == len(BIG_IDS)
 # doubles whose textual renderings differ a lot: tiny, huge, negative, zero, integral, many digits
 DOUBLES = [0.0, -0.0, 1.0, 7.0, -3.0, 0.5, -2.25, 63.76923076923077, 0.1, 1e-7, -1e-7, 2.5e-5, -3.0e-4, 1.2345e-9,
            1e12, -4.5e12, 1.0e10, 123456789.125, 9.999999e6, 1.0e7, 0.001, 0.00099, 3.141592653589793, -0.30000000000000004,
